@@ -26,6 +26,7 @@ FLODYM_MODULES = [
     "flodym.export.array_plotter",
     "flodym.export.sankey",
     "flodym.export.data_writer",
+    "flodym._df_to_flodym_array",
 ]
 
 
@@ -270,6 +271,7 @@ def make_array(name, dims, cls=None, values=None):
 
 REWRITE_TARGETS = [
     "flodym.flodym_arrays.SubArrayHandler._set_ids_single_dim",
+    "flodym._df_to_flodym_array.DataFrameToFlodymDataConverter._check_data_complete",
 ]
 
 
@@ -299,6 +301,27 @@ def rewrite_listcomps(fn):
             )
             count[0] += 1
             return ast.copy_location(ast.Call(func=ast.Name(id="__fvc_listcomp__", ctx=ast.Load()), args=[lam, g.iter], keywords=[]), node)
+
+        def visit_DictComp(self, node):
+            # {k: v for <targets> in it}  ->  __fvc_dictcomp__(lambda <targets>: (k, v), it)
+            self.generic_visit(node)
+            if len(node.generators) != 1:
+                return node
+            g = node.generators[0]
+            if g.ifs or g.is_async:
+                return node
+            if isinstance(g.target, ast.Name):
+                names = [g.target.id]
+            elif isinstance(g.target, ast.Tuple) and all(isinstance(e, ast.Name) for e in g.target.elts):
+                names = [e.id for e in g.target.elts]
+            else:
+                return node
+            lam = ast.Lambda(
+                args=ast.arguments(posonlyargs=[], args=[ast.arg(arg=n) for n in names], kwonlyargs=[], kw_defaults=[], defaults=[]),
+                body=ast.Tuple(elts=[node.key, node.value], ctx=ast.Load()),
+            )
+            count[0] += 1
+            return ast.copy_location(ast.Call(func=ast.Name(id="__fvc_dictcomp__", ctx=ast.Load()), args=[lam, g.iter, ast.Constant(value=len(names))], keywords=[]), node)
 
     tree = T().visit(tree)
     ast.fix_missing_locations(tree)
